@@ -33,9 +33,13 @@
 (*   bound_flux[f][f] = -s T(f) (Dirichlet),  s (Neumann)                  *)
 (*   bound_pressure_cell[f][c] = 1 (Neumann face f of cell c)              *)
 (*   bound_pressure_face[f][f] = 1 (Dirichlet), -1 / T(f) (Neumann)        *)
-(* and its model laws TpfaLaws (symmetry of Div Flux, M-matrix signs,      *)
-(* zero flux for constants, exactness for linear fields when the grid is   *)
-(* K-orthogonal and K constant).                                           *)
+(* T(f) is undefined where the reciprocal halves sum to zero (Singular);   *)
+(* SmallGeom / HalfOK / TSmall are guards that keep TLC's 32-bit integer   *)
+(* arithmetic from overflowing - outside them the reference is not         *)
+(* evaluated (the judge module counts these configurations).               *)
+(* and its model laws TpfaLaws (symmetry of Div Flux, zero flux for        *)
+(* constants; M-matrix signs and exactness for linear fields with constant *)
+(* K on Cartesian / tensor grids with diagonal K, which are K-orthogonal). *)
 (***************************************************************************)
 EXTENDS GridGeom
 
@@ -102,6 +106,28 @@ OracleLaws(G, E, k, F) ==
      /\ RSum([i \in 1..Len(G.cf[c]) |-> RMul(R(G.cf[c][i][2]), ExactFlux(E, k, F, G.cf[c][i][1]))]) = RZero
 ConstantLaw(E, k, p0, f) == ExactFlux(E, k, [g |-> <<0, 0, 0>>, p0 |-> p0], f) = RZero
 
+\* ---- degenerate corners (MPFA) ------------------------------------------------------------------------------
+\* A corner is a node that belongs to exactly one cell c and in which dim boundary faces of c meet.  Its interaction
+\* region consists of one sub-cell; the local system of the O-method for the sub-cell gradient has one row per face:
+\* K n_f on a Neumann face (flux condition), x_f - x_c on a Dirichlet face (pressure at the continuity point, which
+\* is the face centre on the boundary).  If these rows are linearly dependent the local system is singular and the
+\* method itself is undefined (all-Neumann rows are independent for SPD K).
+NodesOfFace(G, f) == {G.fn[f][i] : i \in 1..Len(G.fn[f])}
+Corners(G, E) ==
+  LET n2c == [n \in 1..NNodes(G) |-> {c \in 1..NCells(G) : n \in NodesOfCell(G, c)}]
+  IN {<<n, c>> \in (1..NNodes(G)) \X (1..NCells(G)) :
+        /\ n2c[n] = {c}
+        /\ LET fs == {f \in FacesOf(G, c) : n \in NodesOfFace(G, f)} IN
+             Cardinality(fs) = G.dim /\ \A f \in fs : Boundary(E, f)}
+CornerRow(E, k, bc, c, f) == IF bc[f] = "neu" THEN RMatVec(KMat(k), E.fn[f]) ELSE RVSub(E.fc[f], E.cc[c])
+DegenerateCorner(G, E, k, bc, n, c) ==
+  LET fs == SetToSeq2({f \in FacesOf(G, c) : n \in NodesOfFace(G, f)})
+      r(i) == CornerRow(E, k, bc, c, fs[i])
+  IN IF G.dim = 2 THEN RVCross(r(1), r(2)) = RVZero
+     ELSE IF G.dim = 3 THEN RVDot(r(1), RVCross(r(2), r(3))) = RZero
+     ELSE FALSE
+DegenerateCorners(G, E, k, bc, corners) == {x \in corners : DegenerateCorner(G, E, k, bc, x[1], x[2])}
+
 \* ---- K-orthogonality -------------------------------------------------------------------------------------
 \* every half face: K_c n_f is parallel to x_f - x_c
 KOrthogonal(G, E, kc) == \A c \in 1..NCells(G) : \A i \in 1..Len(G.cf[c]) :
@@ -128,6 +154,8 @@ Halves(G, E, kc) == TLCEval([f \in 1..NFaces(G) |->
 \* guard 2: heights of the halves; none is zero
 HalfOK(H) == \A f \in 1..Len(H) : \A i \in 1..Len(H[f]) :
                 H[f][i][2][1] # 0 /\ Abs(H[f][i][2][1]) <= 20000 /\ H[f][i][2][2] <= 20000
+\* faces on which the two-point transmissibility is undefined: the reciprocal halves sum to zero
+Singular(H) == {f \in 1..Len(H) : RSum([i \in 1..Len(H[f]) |-> RDiv(ROne, H[f][i][2])]) = RZero}
 FaceT(H, f) == RDiv(ROne, RSum([i \in 1..Len(H[f]) |-> RDiv(ROne, H[f][i][2])]))
 \* the four matrices as functions (face, column) -> rational; T = [f |-> FaceT]
 TpfaT(H) == TLCEval([f \in 1..Len(H) |-> FaceT(H, f)])
@@ -153,17 +181,24 @@ RefBoundPressureOf(G, E, k, bc, T, F, f) ==
   RAdd(RSum([i \in 1..Len(SetToSeq2(E.f2c[f])) |->
                LET c == SetToSeq2(E.f2c[f])[i] IN RMul(RefBoundPressureCell(E, bc, f, c), ExactCellPressure(E, F, c))]),
        RMul(RefBoundPressureFace(bc, T, f, f), BcValue(G, E, k, F, bc, f)))
-TpfaSymmetric(G, E, bc, T) == \A c, d \in 1..NCells(G) : RefA(G, E, bc, T, c, d) = RefA(G, E, bc, T, d, c)
+\* (off-diagonal entries only: at most two faces are shared by two cells, so the sums stay small)
+TpfaSymmetric(G, E, bc, T) == \A c, d \in 1..NCells(G) : c < d => RefA(G, E, bc, T, c, d) = RefA(G, E, bc, T, d, c)
 TpfaMMatrix(G, E, bc, T) == \A c, d \in 1..NCells(G) :
    IF c = d THEN RSgn(RefA(G, E, bc, T, c, c)) > 0 ELSE RSgn(RefA(G, E, bc, T, c, d)) <= 0
 TpfaExact(G, E, k, bc, T, F) == \A f \in 1..NFaces(G) :
    /\ RefFluxOf(G, E, k, bc, T, F, f) = ExactFlux(E, k, F, f)
    /\ Boundary(E, f) => RefBoundPressureOf(G, E, k, bc, T, F, f) = ExactBoundPressure(E, F, f)
-\* all laws for one configuration (fields: a sequence of linear fields; a constant one among them)
-TpfaLaws(G, E, kc, bc, T, fields) ==
-  /\ TpfaSymmetric(G, E, bc, T)
-  /\ \A j \in 1..Len(fields) : fields[j].g = <<0, 0, 0>> => TpfaExact(G, E, kc[1], bc, T, fields[j])
-  /\ KOrthogonal(G, E, kc) =>
+\* all laws for one configuration (fields: a sequence of linear fields, the first one constant).  Arithmetic on the
+\* transmissibilities is only done where it provably fits in 32 bits: symmetry and the constant field when all
+\* T are small rationals; M-matrix signs and linear exactness on Cartesian / tensor grids with diagonal tensors
+\* (axis = AxisDiag; such a configuration is K-orthogonal - asserted by the caller - and its T are tiny).
+TSmall(T) == \A f \in 1..Len(T) : Abs(T[f][1]) <= 1000 /\ T[f][2] <= 1000
+TpfaLaws(G, E, kc, bc, T, fields, axis) ==
+  /\ TSmall(T) =>
+       /\ TpfaSymmetric(G, E, bc, T)
+       /\ TpfaExact(G, E, kc[1], bc, T, fields[1])
+  /\ axis =>
+       /\ TSmall(T)
        /\ TpfaMMatrix(G, E, bc, T)
        /\ ConstantK(kc) => \A j \in 1..Len(fields) : TpfaExact(G, E, kc[1], bc, T, fields[j])
 =============================================================================
